@@ -13,6 +13,8 @@ LEVEL = "fault_enumeration"
 
 ASSUME = [
     "deterministic part: the guarded hook (VERIF_POINT in src/main.cpp, -DINOVESA_VERIF) raises a real SIGINT through the real handler when its counter reaches the requested value; the point log proves where each injection fired; every point of the chosen runs is enumerated once, plus pairs/triples for repeated signals",
+    "inside the file writer: an LD_PRELOAD shim (tools/sigshim.c) on the same binary raises a real SIGINT on entry of the n-th H5Dwrite / H5Dset_extent call, i.e. while the program is inside HDF5File::append or the constructor's writes; every such call of the chosen runs is an interrupt point (quick tier: 90 evenly spread per scenario); the shim logs into the same file as the guarded hook, which places each call between two interrupt points of main() and so fixes the step in progress",
+    "one of the always-enumerated scenarios reads its start distribution from a text file (interrupts before, and with the flag already set during, the read)",
     "asynchronous part: real kill(SIGINT) at random delays, counted from the program's first line of output (the handler is installed before anything is printed: 'after start-up'), into the release binary with the hook dormant (environment unset)",
     "expected step reached: set-up points -> 0; loop points before the step counter is incremented -> step+1; after the increment / final block -> the step shown by the hook",
     "every record before the final one must be bit-identical to the same-step record of the uninterrupted run with the same options; the final record to the record of that step in a reference run that records every step (enumeration) / in a run of exactly that length (asynchronous part)",
@@ -32,11 +34,12 @@ def scenarios(seed, tier):
         dict(GridSize=32, StepsPerTs=16, rotations=0.5, outstep=4, SavePhaseSpace=1, RFPhaseModAmplitude=0.5, RFPhaseModFrequency=8000.0, _tracking=2),
         dict(GridSize=48, StepsPerTs=32, rotations=0.375, outstep=2, SavePhaseSpace=3, WallConductivity=3e7, InterpolationPoints=3),
         dict(GridSize=32, StepsPerTs=16, rotations=0.5, outstep=40, SavePhaseSpace=1, DampingTime=0.0),
+        dict(GridSize=32, StepsPerTs=16, rotations=0.5, outstep=3, SavePhaseSpace=1, VacuumGap=0, _starttxt=600),       # start distribution read from a text file
     ]
-    k = 8 if tier == "thorough" else 2
+    k = 9 if tier == "thorough" else 3
     order = r.shuffle(range(len(base)))
-    # scenario 0 always included (no impedance), the others rotate with the seed
-    chosen = [0] + [i for i in order if i != 0][: k - 1]
+    # scenario 0 (no impedance) and the text-start scenario are always included, the others rotate with the seed
+    chosen = [0, 8] + [i for i in order if i not in (0, 8)][: k - 2]
     for i in chosen:
         o = dict(base[i])
         if "BunchCurrent" not in o:
@@ -52,6 +55,12 @@ def prepare(o, wd):
             for k in range(o["_tracking"]):
                 fh.write("%.3f %.3f\n" % (0.5 * k - 0.7, 0.3 * k - 0.2))
         run["tracking"] = os.path.join(wd, "trk.txt")
+    if o.get("_starttxt"):
+        rr = core.Rng("c14start", o["_starttxt"])
+        with open(os.path.join(wd, "start.txt"), "w") as fh:
+            for k in range(o["_starttxt"]):
+                fh.write("%.4f %.4f\n" % (0.8 * rr.uniform(-2, 2) + 0.3, 0.8 * rr.uniform(-2, 2)))
+        run["InitialDistFile"] = os.path.join(wd, "start.txt")
     return run
 
 
@@ -235,6 +244,81 @@ def enumerate_scenario(ctx, idx, o, sdir):
         if not os.environ.get("VERIF_KEEP"):
             shutil.rmtree(outp["wd"], ignore_errors=True)
     ctx.sample(dict(scenario=idx, options=run, interrupt_points=len(pts), repeated_signal_runs=nmulti, tags=tags[:12]))
+    # ---- interrupt points inside the HDF5 writes (LD_PRELOAD shim on the same binary; tools/sigshim.c) ---------------------------
+    try:
+        shim = build.build_shlib("sigshim")
+    except RuntimeError as ex:
+        ctx.harness_errors.append("sigshim does not build: %s" % str(ex)[-200:])
+        return
+    swd, sres = go("shimdry", {}, {"LD_PRELOAD": shim, "VERIF_SHIM_LOG": "points.log", "INOVESA_VERIF_POINTLOG": "points.log"})
+
+    def read_mixed(path):
+        """-> list of shim calls (counter, function, injected, preceding hook point (tag, step))"""
+        calls, prev = [], ("setup:start", 0)
+        with open(path) as fh:
+            for line in fh:
+                f = line.split()
+                if len(f) >= 3 and f[0] == "S":
+                    calls.append((int(f[1]), f[2], "(INJECTED)" in line, prev))
+                elif len(f) >= 3 and f[0].isdigit():
+                    prev = (f[1], int(f[2]))
+        return calls
+    try:
+        calls = read_mixed(os.path.join(swd, "points.log"))
+    except OSError:
+        calls = []
+    if sres["rc"] != 0 or not calls:
+        ctx.harness_errors.append("scenario %d: shim dry pass failed or saw no HDF5 write (%s)" % (idx, sres["err"][-200:]))
+        return
+    ctx.ev("hdf5_write_calls_listed", len(calls))
+    cap = len(calls) if ctx.tier == "thorough" else 90
+    sel = calls if len(calls) <= cap else [calls[i] for i in sorted(set(int(round(j * (len(calls) - 1) / (cap - 1.0))) for j in range(cap)))]
+    sjobs = [((c[0],), c) for c in sel]
+    for _ in range(8 if ctx.tier == "thorough" else 4):          # two signals inside two different writes
+        a, b = sorted((r.randint(1, len(calls)), r.randint(1, len(calls))))
+        if a != b:
+            sjobs.append(((a, b), calls[a - 1]))
+
+    def sone(job):
+        ks, c = job
+        wd, res = go("w" + "_".join(map(str, ks)), {}, {"LD_PRELOAD": shim, "VERIF_SHIM_SIGINT_AT": ",".join(map(str, ks)),
+                                                          "VERIF_SHIM_LOG": "points.log", "INOVESA_VERIF_POINTLOG": "points.log"})
+        try:
+            got = read_mixed(os.path.join(wd, "points.log"))
+        except OSError:
+            got = []
+        return dict(job=job, res=res, wd=wd, calls=got)
+
+    for outp in core.pmap(sone, sjobs):
+        ks, c = outp["job"]
+        res = outp["res"]
+        inj = [x for x in outp["calls"] if x[2]]
+        ctx.case("s%d:w%s" % (idx, ks))
+        if not inj or inj[0][0] != ks[0]:
+            ctx.inconcl("scenario %d write %s: injection did not fire where intended" % (idx, ks))
+            continue
+        tag, st = inj[0][3]
+        w = dict(scenario=idx, options=run, hdf5_calls=list(ks), function=c[1], after_point=tag, step_at_signal=st, cmd=" ".join(res["argv"]),
+                 env="LD_PRELOAD=sigshim VERIF_SHIM_SIGINT_AT=%s" % ",".join(map(str, ks)))
+        sfx = ":inside_write:" + tag.split(":")[0]
+        ctx.ev("injections_inside_hdf5_writes_confirmed", len(inj))
+        bad = prog.program_outcome_key(res)
+        if bad:
+            ctx.violation("C14:" + bad[0] + sfx, "run interrupted inside an HDF5 write did not end by itself with success: " + bad[1], dict(w, stderr=res["err"][-800:]))
+            continue
+        if res["rc"] != 0:
+            ctx.violation("C14:exit_status" + sfx, "run interrupted inside an HDF5 write exits with failure status %s" % res["rc"], dict(w, stderr=res["err"][-500:]))
+            continue
+        try:
+            h = prog.H5(os.path.join(outp["wd"], "out.h5"))
+        except (IOError, OSError) as ex:
+            ctx.violation("C14:unreadable" + sfx, "results file of the run interrupted inside an HDF5 write cannot be read", dict(w, error=str(ex)))
+            continue
+        # the write lies between the hook point logged before it and the next one: the step in progress is the one that point implies
+        n = judge(ctx, h, P, run, ref, refsame, res, expected_step(tag, st), w, sfx, finished_ok=tag.startswith(("final", "loopend")))
+        ctx.ev("records_compared_bitwise", n)
+        if not os.environ.get("VERIF_KEEP"):
+            shutil.rmtree(outp["wd"], ignore_errors=True)
 
 
 def async_part(ctx, sdir):
@@ -326,8 +410,8 @@ def async_part(ctx, sdir):
 
 def run(ctx):
     ctx.assumptions = ASSUME
-    ctx.rule = ("deterministic: for each chosen short scenario (2 quick / 8 thorough; with/without impedance, tracking, phase-space saving, 1-2 bunches, RF modulation, renormalisation) a dry pass lists every interrupt point, "
-                "then one run per point plus 24/60 runs with 2-3 signals; distinct = (scenario, point set); non-trivial = the hook log confirms the injection fired at the intended point. "
+    ctx.rule = ("deterministic: for each chosen short scenario (3 quick / 9 thorough; with/without impedance, tracking, phase-space saving, 1-2 bunches, RF modulation, renormalisation) a dry pass lists every interrupt point, "
+                "then one run per point plus 24/60 runs with 2-3 signals, then one run per HDF5 write call (shim; 90 evenly spread / all) plus 4/8 runs with signals inside two writes; distinct = (scenario, point set); non-trivial = the hook log confirms the injection fired at the intended point. "
                 "asynchronous: real SIGINTs at random delays (1-3 per run) into a 3072-step run")
     sdir = ctx.scratch()
     for idx, o in scenarios(ctx.seed, ctx.tier):
@@ -337,4 +421,5 @@ def run(ctx):
     ctx.extra["point_tags_seen"] = sorted(tags)
     ctx.extra["explanation"] = "every interrupt point of the chosen runs was injected once (complete for those runs); the set of runs is a sample"
     ctx.min_events = {"injections_confirmed": 300, "injected.setup": 20, "injected.loop": 100, "injected.out": 20,
-                      "injected.final": 5, "injected.loopend": 5, "records_compared_bitwise": 3000, "async_runs_judged": 10}
+                      "injected.final": 5, "injected.loopend": 5, "records_compared_bitwise": 3000, "async_runs_judged": 10,
+                      "injections_inside_hdf5_writes_confirmed": 100}
